@@ -73,8 +73,9 @@ func genCopyCase(rng *rand.Rand, mode string, big bool) copyCase {
 		nb, nm = 3+rng.Intn(20), 5+rng.Intn(40)
 	}
 	kind := []dstKind{"memory", "oci", "file"}[rng.Intn(3)]
+	alias := mode == "C01" && rng.Intn(4) == 0
 	u := GenDAG(rng, GenCfg{Blobs: nb, Manifests: nm, Subjects: true, Indexes: true, Foreign: rng.Intn(2) == 0,
-		Alias: mode == "C01" && rng.Intn(4) == 0, EmptyBlob: rng.Intn(2) == 0})
+		Alias: alias, EmptyBlob: rng.Intn(2) == 0})
 	// root: prefer a manifest with a large graph
 	root := len(u.Nodes) - 1
 	for tries := 0; tries < 3; tries++ {
@@ -87,6 +88,13 @@ func genCopyCase(rng *rand.Rand, mode string, big bool) copyCase {
 		root = 0
 	}
 	cc := copyCase{u: u, roots: []int{root}, dst: kind, conc: 1 + rng.Intn(4), label: "copygraph-" + string(kind)}
+	if alias && kind != "memory" {
+		// two nodes share one key of a digest-keyed destination: with several workers the
+		// recorded order of "push of one finished" and "the other was looked up" need not be
+		// the order in which the destination saw them (the look-up is logged when it returns),
+		// so these graphs are copied by one worker
+		cc.conc = 1
+	}
 	// pre-populate the down-closure of a few random nodes
 	if rng.Intn(2) == 0 {
 		var seeds []int
